@@ -264,7 +264,9 @@ impl Env for SimEnv {
                 let truth = truth.or_else(|| named.and_then(|q| self.sent_seqs.get(&q).map(|r| (q, *r))));
                 let t = due.max(now);
                 vclock::set(t);
-                let ts = if self.rng.chance(self.knobs.p_clock_stepped_back, 1000) { t.saturating_sub(5_000_000_000) } else { t };
+                // (either the stamp lies before the send - the clock stepped back before the read - or it lies in the clock's future: the clock
+                //  stepped back right after the stamp was taken)
+                let ts = if self.rng.chance(self.knobs.p_clock_stepped_back, 1000) { if self.rng.chance(1, 2) { t.saturating_sub(5_000_000_000) } else { t + *self.rng.pick(&[400_000u64, 30_000_000, 5_000_000_000]) } } else { t };
                 let stamp = |d: &ResponseData| ResponseData::new(vclock::from_ns(ts), d.addr, d.proto_resp.clone());
                 let r = match r {
                     Response::TimeExceeded(d, c, e) => Response::TimeExceeded(stamp(&d), c, e),
